@@ -28,7 +28,33 @@ func runOverlayTest(repo, testFile string) (string, bool) {
 		}
 	}
 	target := filepath.Join(repo, dir, "zz_verif_replay_test.go")
-	ov := map[string]map[string]string{"Replace": {target: testFile}}
+	repl := map[string]string{target: testFile}
+	// optional extra overlay files:  // ==== extra-file: <path relative to the repo> ====
+	parts := strings.Split(string(src), "\n// ==== extra-file: ")
+	var tmpFiles []string
+	if len(parts) > 1 {
+		main := testFile + ".main.go.txt"
+		os.WriteFile(main, []byte(parts[0]), 0o644)
+		tmpFiles = append(tmpFiles, main)
+		repl[target] = main
+		for i, p := range parts[1:] {
+			nl := strings.Index(p, "\n")
+			if nl < 0 {
+				continue
+			}
+			rel := strings.TrimSpace(strings.TrimSuffix(strings.TrimSpace(p[:nl]), "===="))
+			f := fmt.Sprintf("%s.extra%d.go.txt", testFile, i)
+			os.WriteFile(f, []byte(p[nl+1:]), 0o644)
+			tmpFiles = append(tmpFiles, f)
+			repl[filepath.Join(repo, rel)] = f
+		}
+	}
+	defer func() {
+		for _, f := range tmpFiles {
+			os.Remove(f)
+		}
+	}()
+	ov := map[string]map[string]string{"Replace": repl}
 	ovData, _ := json.Marshal(ov)
 	ovFile := testFile + ".overlay.json"
 	os.WriteFile(ovFile, ovData, 0o644)
